@@ -1,21 +1,38 @@
 #!/usr/bin/env python3
-"""Regenerates refs/known_fns.json: the names of the local functions (all analysed configurations) that exist in
-/repo *now*.  The interpreter treats any local function NOT in this list as a helper introduced by a later change and
-looks inside it (rules/interp.py, `known_fns`).  Run this only when a rule is deliberately re-anchored on a new
-function of the code base; it is never run by a check."""
+"""Regenerates refs/known_fns.json and refs/known_sigs.json from /repo as it is *now*.
+
+known_fns.json  - names of the local functions per crate (all analysed configurations).  The interpreter treats any
+                  local function NOT in this list as a helper introduced by a later change and looks inside it.
+known_sigs.json - per crate and configuration, for every named function: parameter names, parameter / return types and
+                  the set of callees.  rules/facts.py uses it to recognise a *renamed or moved private function* (same
+                  signature, overlapping callees, old name gone, new name unknown) and a *renamed parameter*, and
+                  presents them to the rules under the names the rules were written against.
+
+Run this only when the rules are deliberately re-anchored on the code base as it stands; it is never run by a check."""
 import json
 import os
 import sys
 sys.path.insert(0, os.path.join(os.path.dirname(os.path.dirname(os.path.abspath(__file__))), "rules"))
+os.environ["VERIF_NO_CANON"] = "1"
 import facts
 
-th, dirs, _ = facts.ensure_facts(["K1", "K2", "K3", "K4", "K5"])
-out = {}
-for cfg in ("K1", "K2", "K3", "K4", "K5"):
+CFGS = ["K0", "K1", "K2", "K3", "K4", "K5"]
+th, dirs, _ = facts.ensure_facts(CFGS)
+names = {}
+sigs = {}
+for cfg in CFGS:
     for fname in facts.CONFIGS[cfg][1]:
         cr = facts.load(dirs, cfg, fname, expect_hash=th)
-        out.setdefault(cr.name, set()).update(cr.bodies.keys())
+        names.setdefault(cr.name, set()).update(cr.bodies.keys())
+        key = "%s|%s|%s" % (cr.name, cfg, fname)
+        sigs[key] = {}
+        for k, b in cr.bodies.items():
+            if b.get("dk") not in ("Fn", "AssocFn") or "{closure" in k:
+                continue
+            sigs[key][k] = facts.signature(cr, k, b)
 path = os.path.join(facts.VERIF, "refs", "known_fns.json")
 with open(path, "w") as fh:
-    fh.write("{\n" + ",\n".join('"%s": [\n%s\n]' % (k, ",\n".join(json.dumps(x) for x in sorted(v))) for k, v in sorted(out.items())) + "\n}\n")
-print({k: len(v) for k, v in out.items()})
+    fh.write("{\n" + ",\n".join('"%s": [\n%s\n]' % (k, ",\n".join(json.dumps(x) for x in sorted(v))) for k, v in sorted(names.items())) + "\n}\n")
+with open(os.path.join(facts.VERIF, "refs", "known_sigs.json"), "w") as fh:
+    json.dump(sigs, fh, indent=0, sort_keys=True)
+print({k: len(v) for k, v in names.items()}, {k: len(v) for k, v in sigs.items()})
